@@ -1,9 +1,337 @@
-import Model.Common
-/-! Oracle handlers for C08 (stub until the property's model exists). -/
-namespace OracleC08
-open Common
+import Model.C08
+/-!
+Oracle handlers for C08 (and the step replay shared with C09).
 
-def handle (_cmd : String) (_f : List String) : String × String × String :=
-  ("unknown-cmd", "-", "-")
+`C08.run  <case>  <cfgs>  <files>  <initial store>  <steps>` where one step is
+`idx!ev!arg!fault!now!gen!cas!ret!local!file` (see harness/cmd/corr/c08.go).
+
+* diff  : first step whose model result (callback answer, return value, remembered self, tokens
+          file, generator request) differs from the implementation's.
+* judge : the six statements of the property evaluated on the recorded CAS pairs / getters only.
+-/
+namespace OracleC08
+open Common Ring C08
+
+/-! ### parsing -/
+
+def parseCfg (s : String) : Option Cfg :=
+  match s.splitOn "/" with
+  | [k, id, addr, zone, nt, obs, hf, hbt, rr, mr, rs, fg, _unreg] => do
+    let nt ← nt.toNat?
+    let hbt ← hbt.toInt?
+    let mr ← mr.toInt?
+    let rs ← State.ofCode rs
+    let fg ← fg.toInt?
+    pure { kind := if k == "B" then .BLC else .LC, id := id, addr := addr, zone := str? zone, numTokens := nt,
+           observe := obs == "1", hasFile := hf == "1", hbTimeout := hbt, readinessRing := rr == "1", minReady := mr,
+           registerState := rs, forget := if fg > 0 then some fg else none }
+  | _ => none
+
+def parseFile (s : String) : Option File :=
+  if s == "a" then some .absent else if s == "c" then some .corrupt
+  else if s.startsWith "t" then (natList? (s.drop 1).toString).map File.tokens else none
+
+def showFile : File → String
+  | .absent => "a" | .corrupt => "c" | .tokens l => "t" ++ showNatList l
+
+def parseStore (s : String) : Option (Option Desc) :=
+  if s == "nil" then some none else (parseDesc s).map some
+
+def leId (a b : Inst) : Bool := !(b.id < a.id)
+def canon (d : Desc) : Desc := d.mergeSort leId
+def showStore : Option Desc → String
+  | none => "nil" | some d => showDesc (canon d)
+
+def b01 (b : Bool) : String := if b then "1" else "0"
+
+def showLocal (c : Cfg) (l : Local) : String :=
+  match c.kind with
+  | .LC => "/".intercalate [l.state.code, showNatList l.tokens, toString l.regTs, b01 l.ro, toString l.roTs, b01 l.ready, toString l.readySince]
+  | .BLC => match l.cur with | none => "-" | some i => showInst i
+
+def parseEvent (ev arg : String) : Option Event :=
+  match ev with
+  | "init" => (natList? arg).map Event.init
+  | "join" => some .joinTimer
+  | "verify" => some .verify
+  | "hb" => some .heartbeat
+  | "cs" => (State.ofCode arg).map Event.changeState
+  | "ro" => some (.changeRO (arg == "1"))
+  | "claim" => some (.claim arg)
+  | "unreg" => some .unregister
+  | "ready" => some .checkReady
+  | "ontok" => some .onTokens
+  | "stopd" => some .stopDelegate
+  | _ => none
+
+def showRet : Ret → String
+  | .ok => "ok" | .err => "err" | .yes => "yes" | .no => "no"
+
+def showGenReq : Option (Int × List Nat) → String
+  | none => "-" | some (n, t) => toString n ++ "^" ++ showNatList t
+
+/-! ### replay state -/
+
+structure Node where
+  cfg : Cfg
+  l : Local := {}
+  file : File := .absent
+  -- judge bookkeeping (from the implementation's observations only)
+  jFile : File := .absent
+  inherited : Bool := false
+  joined : Bool := false
+  fileDup : Bool := false
+  generated : Bool := false
+  latched : Bool := false
+  inits : Nat := 0
+  deriving Inhabited
+
+/-- one recorded step, for judges that look at whole histories (C09) -/
+structure Rec where
+  idx : Nat
+  ev : String
+  fault : String
+  now : Int
+  before : Option Desc
+  after : Option Desc
+  loc : String
+  file : String
+  ret : String
+  committed : Bool
+  deriving Inhabited
+
+structure St where
+  log : List Rec := []
+  nodes : Array Node
+  store : Option Desc
+  diff : Option String := none
+  bad : List String := []
+  writes : Nat := 0
+  feats : List String := []
+  nsteps : Nat := 0
+
+def addFeat (s : St) (f : String) : St := if s.feats.contains f then s else { s with feats := f :: s.feats }
+def addBad (s : St) (b : String) : St := if s.bad.contains b then s else { s with bad := b :: s.bad }
+
+def legalEdge (a b : State) : Bool :=
+  (a == .PENDING && b == .JOINING) || (a == .JOINING && b == .PENDING) || (a == .JOINING && b == .ACTIVE) ||
+  (a == .PENDING && b == .ACTIVE) || (a == .ACTIVE && b == .LEAVING)
+
+def strictSorted : List Nat → Bool
+  | [] => true
+  | [_] => true
+  | a :: b :: r => a < b && strictSorted (b :: r)
+
+def idsOf (d : Desc) : List String := d.map (·.id)
+
+/-- the property's statements on one recorded callback answer `din ↦ dout` of writer `nd`. -/
+def judgeWrite (nd : Node) (ev arg : String) (now : Int) (din dout : Desc) (genReply : List Nat) (committed : Bool) : List String := Id.run do
+  let c := nd.cfg
+  let mut bad : List String := []
+  -- 1. frame
+  for id in (idsOf din ++ idsOf dout).eraseDups do
+    if id != c.id then
+      let a := din.get? id
+      let b := dout.get? id
+      let same := a == b
+      let claimOk := ev == "claim" && id == arg && (match a, b with
+        | some x, some y => y == { x with tokens := [] }
+        | _, _ => false)
+      let forgetOk := c.kind == .BLC && ev == "hb" && (match c.forget, a, b with
+        | some p, some x, none => decide (now - x.ts ≥ p)
+        | _, _, _ => false)
+      if !(same || claimOk || forgetOk) then bad := s!"frame:{ev}" :: bad
+  -- tokens chosen now are nobody else's in the ring they were chosen from
+  for t in genReply do
+    if din.any (fun i => i.id != c.id && i.tokens.contains t) then bad := "generated-token-taken" :: bad
+  match din.get? c.id, dout.get? c.id with
+  | some a, some b =>
+    -- 2. state edges
+    if a.state != b.state then
+      let ok := legalEdge a.state b.state || (a.state == .LEAVING && b.state == .ACTIVE && ev == "init") ||
+        (c.kind == .BLC && ((ev == "cs" && arg == b.state.code) || (ev == "stopd" && b.state == .LEAVING)))
+      if !ok then
+        bad := (if c.kind == .BLC && ev == "init" then s!"edge-register:{a.state.code}>{b.state.code}" else s!"edge:{a.state.code}>{b.state.code}") :: bad
+    -- 3. heartbeat never goes backwards
+    if b.ts < a.ts then bad := "heartbeat-backwards" :: bad
+    -- 4. registration time kept
+    if a.regTs != b.regTs then bad := "registered-changed" :: bad
+    if ev == "join" && !(a.tokens.all (b.tokens.contains ·)) then bad := "inherited-tokens-dropped" :: bad
+  | _, _ => pure ()
+  match dout.get? c.id with
+  | some b =>
+    if ev == "hb" && committed && b.ts != now then bad := "heartbeat-not-refreshed" :: bad
+    -- 5. activation
+    let wasActive := match din.get? c.id with | some a => a.state == .ACTIVE | none => false
+    if b.state == .ACTIVE && !wasActive then
+      -- inherited tokens are kept as they are; what the lifecycler generated itself must be distinct and sorted
+      if (nd.generated || !nd.inherited) && !strictSorted b.tokens then
+        -- label only: the duplicate is a token of the tokens file that the generator returned again
+        bad := (if nd.fileDup then "active-tokens-not-distinct:file-token-regenerated" else "active-tokens-not-distinct-sorted") :: bad
+      -- the count is the lifecycler's business when it joined by itself (own join / register) without inherited tokens
+      if nd.joined && !nd.inherited && b.tokens.length != c.numTokens then bad := "active-token-count" :: bad
+  | none =>
+    if ev == "hb" && committed then bad := "heartbeat-removed-self" :: bad
+  return bad
+
+def healthyLenient (c : Cfg) (now : Int) (i : Inst) : Bool := decide (now - i.ts ≤ c.hbTimeout)
+
+/-- statement 6 on a CheckReady that answered ok for the first time -/
+def judgeReady (c : Cfg) (localState : String) (localTokens : String) (store : Option Desc) (now : Int) : List String := Id.run do
+  let mut bad : List String := []
+  if localState != "A" then bad := "ready-not-active" :: bad
+  if localTokens == "-" then bad := "ready-without-tokens" :: bad
+  if c.readinessRing then
+    match store with
+    | none => bad := "ready-no-ring" :: bad
+    | some d => if !d.all (fun i => i.state == .ACTIVE && healthyLenient c now i) then bad := "ready-ring-unhealthy" :: bad
+  return bad
+
+def resolveIn (tracked : Option Desc) (s : String) : Option (Option Desc) :=
+  if s == "=" then some tracked else parseStore s
+
+/-- one step: model replay (diff) + judge. `crashKinds` are accepted only for C09. -/
+def doStep (s : St) (stepNo : Nat) (f : List String) : St :=
+  if s.diff.isSome && s.diff != some "" then s else
+  match f with
+  | [idx, ev, arg, fault, now, gen, cas, ret, loc, file] =>
+    let s := { s with nsteps := s.nsteps + 1 }
+    let fail (m : String) : St := { s with diff := some s!"step{stepNo}:{m}" }
+    if idx == "E" then
+      if ev == "wipe" then
+        addFeat { s with store := none, log := { idx := 1000, ev := "wipe", fault := "n", now := now.toInt?.getD 0, before := s.store, after := none, loc := "-", file := "-", ret := "ok", committed := false } :: s.log } "wipe"
+      else if ev == "set" then
+        match parseStore arg with
+        | some st => addFeat { s with store := st } "envset"
+        | none => fail "bad-env-store"
+      else fail "bad-env-event"
+    else
+    match idx.toNat?, now.toInt?, parseFile file with
+    | some i, some now, some ofile =>
+      match s.nodes[i]? with
+      | none => fail "bad-node-index"
+      | some nd =>
+        let c := nd.cfg
+        if ev == "crash" then
+          let s := if nd.file != ofile then { s with diff := some s!"step{stepNo}:file model={showFile nd.file}" } else s
+          { s with nodes := s.nodes.setIfInBounds i { nd with l := {}, latched := false, jFile := ofile },
+                   log := { idx := i, ev := "crash", fault := "n", now := now, before := s.store, after := s.store, loc := "dead", file := file, ret := "ok", committed := false } :: s.log }
+        else
+        match parseEvent ev arg with
+        | none => fail "bad-event"
+        | some e =>
+          -- implementation's CAS record
+          let (inS, outS) : String × String := match cas.splitOn ">" with
+            | [a, b] => (a, b)
+            | _ => ("=", "x")
+          match resolveIn s.store inS with
+          | none => fail "bad-cas-in"
+          | some din =>
+            let chainBroken := cas != "x" && showStore din != showStore s.store
+            let genReply : List Nat := match gen.splitOn "^" with
+              | [_, _, r] => (natList? r).getD []
+              | _ => []
+            let implGenReq : String := match gen.splitOn "^" with
+              | [n, t, _] => n ++ "^" ++ t
+              | _ => "-"
+            let isCrash := fault == "cb" || fault == "ca"
+            let mf : Fault := if fault == "fb" then .failBefore else if fault == "fc" then .failCommit else .none
+            -- model
+            let r := step c nd.l nd.file din e now (fun _ _ => genReply) mf
+            let mOut : String := match r.out with
+              | .noCas => "x" | .declined => "nil" | .cbErr => "err" | .write d => "W" ++ showDesc (canon d)
+            let committed := (fault == "n" || fault == "ca") && outS.startsWith "W"
+            let mLocal := if isCrash then "dead" else showLocal c r.l
+            let mFile : File := if isCrash then (match e with | .claim _ => nd.file | _ => r.file) else r.file
+            let mRet := if isCrash then "crash" else showRet r.ret
+            let d1 : Option String :=
+              if chainBroken then some s!"chain tracked={showStore s.store}"
+              else if mOut != outS then some s!"cas model={mOut}"
+              else if mRet != ret then some s!"ret model={mRet}"
+              else if mLocal != loc then some s!"local model={mLocal}"
+              else if mFile != ofile then some s!"file model={showFile mFile}"
+              else if showGenReq r.genReq != implGenReq then some s!"gen model={showGenReq r.genReq}"
+              else none
+            let s := match d1 with | some m => { s with diff := some s!"step{stepNo}:{ev}:{m}" } | none => s
+            -- judge (implementation's own observation)
+            let implOut : Option Desc := if outS.startsWith "W" then parseDesc (outS.drop 1).toString else none
+            let ndJ : Node := if ev == "init" then
+                let fileToks := match nd.jFile with | .tokens t => c.hasFile && !t.isEmpty | _ => false
+                let ringToks := match (din.getD []).get? c.id with | some x => !x.tokens.isEmpty | none => false
+                let fileT := match nd.jFile with | .tokens t => t | _ => []
+                { nd with inherited := fileToks || ringToks, joined := c.kind == .BLC, latched := false, inits := nd.inits + 1, generated := !genReply.isEmpty,
+                          fileDup := c.kind == .BLC && c.hasFile && genReply.any (fileT.contains ·) }
+              else if ev == "join" && outS.startsWith "W" then { nd with joined := true, generated := nd.generated || !genReply.isEmpty }
+              else if ev == "claim" then { nd with inherited := true }
+              else if !genReply.isEmpty then { nd with generated := true } else nd
+            let jb : List String := match implOut with
+              | some dout => judgeWrite ndJ ev arg now (din.getD []) dout genReply committed
+              | none => []
+            let (jr, latched) : List String × Bool :=
+              if ev == "ready" then
+                if ret == "ok" then
+                  if ndJ.latched then ([], true)
+                  else (judgeReady c ((loc.splitOn "/").headD "?") (((loc.splitOn "/").drop 1).headD "-") s.store now, true)
+                else if ndJ.latched then (["ready-unlatched"], true) else ([], false)
+              else ([], ndJ.latched)
+            let s := (jb ++ jr).foldl addBad s
+            -- features for the tags
+            let s := if ndJ.inits ≥ 2 && ev == "init" then addFeat s "restart" else s
+            let s := if ev == "claim" && committed then addFeat s "claim" else s
+            let s := if ev == "verify" then addFeat s "observe" else s
+            let s := if ev == "ready" && ret == "ok" then addFeat s "ready" else s
+            let s := if ev == "ro" && committed then addFeat s "ro" else s
+            let s := if gen != "-" then addFeat s "gen" else s
+            let s := if fault != "n" then addFeat s ("fault-" ++ fault) else s
+            let s := match implOut with
+              | some dout => if ev == "hb" && (din.getD []).any (fun x => x.id != c.id && (dout.get? x.id).isNone) then addFeat s "forget" else s
+              | none => s
+            let s := if ev == "init" && (match (din.getD []).get? c.id with | some x => x.state == .JOINING | none => false) then addFeat s "initJ" else s
+            let s := if ev == "init" && (match (din.getD []).get? c.id with | some x => x.state == .LEAVING | none => false) then addFeat s "initL" else s
+            -- advance: the model continues from ITS OWN local state and file, the store from the implementation's writes
+            let store' := if committed then (match implOut with | some d => some d | none => s.store) else s.store
+            let l' : Local := if isCrash then {} else r.l
+            let s := if ev == "claim" && committed then
+                { s with nodes := s.nodes.map fun x => if x.cfg.id == arg then { x with inherited := true } else x } else s
+            { s with store := store', writes := s.writes + (if committed then 1 else 0),
+                     log := { idx := i, ev := ev, fault := fault, now := now, before := s.store, after := store', loc := loc, file := file, ret := ret, committed := committed } :: s.log,
+                     nodes := s.nodes.setIfInBounds i { ndJ with l := l', file := mFile, jFile := ofile, latched := if isCrash then false else latched } }
+    | _, _, _ => fail "bad-step-fields"
+  | _ => { s with diff := some s!"step{stepNo}:bad-step" }
+
+def bucket (n : Nat) : String := if n < 8 then "0-7" else if n < 16 then "8-15" else if n < 32 then "16-31" else "32+"
+
+def runSteps (cfgs files init steps : String) : Option St := do
+  let cs ← (cfgs.splitOn ";").mapM parseCfg
+  let fs ← (files.splitOn ";").mapM parseFile
+  let st ← parseStore init
+  if cs.length != fs.length then none
+  let nodes : Array Node := (cs.zip fs).toArray.map fun (c, f) => { cfg := c, file := f, jFile := f }
+  let s0 : St := { nodes := nodes, store := st }
+  let steps := if steps == "" then [] else steps.splitOn " "
+  let (s, _) := steps.foldl (fun (acc : St × Nat) stp => (doStep acc.1 acc.2 (stp.splitOn "!"), acc.2 + 1)) (s0, 0)
+  pure s
+
+def kindsTag (nodes : Array Node) : String :=
+  let l := nodes.toList.map (·.cfg.kind)
+  if l.all (· == .LC) then "L" else if l.all (· == .BLC) then "B" else "M"
+
+def handleRun (f : List String) : String × String × String :=
+  match f with
+  | [_case, cfgs, files, init, steps] =>
+    match runSteps cfgs files init steps with
+    | none => ("bad-input", "-", "-")
+    | some s =>
+      let diff := match s.diff with | some m => m | none => "-"
+      let judge := if s.bad.isEmpty then "-" else ",".intercalate s.bad.reverse
+      let feats := ",".intercalate ((s.feats.toArray.qsort (· < ·)).toList)
+      let tags := s!"n={s.nodes.size} kind={kindsTag s.nodes} steps={bucket s.nsteps} writes={bucket s.writes} feat={if feats.isEmpty then "-" else feats}" ++
+        (if s.writes < 3 then " trivial" else "")
+      (diff, judge, tags)
+  | _ => ("bad-fields", "-", "-")
+
+def handle (cmd : String) (f : List String) : String × String × String :=
+  if cmd == "C08.run" then handleRun f
+  else ("unknown-cmd", "-", "-")
 
 end OracleC08
